@@ -22,6 +22,6 @@ if __name__ == '__main__':
         a = C06.vals(got, n); b = C06.vals(ref, n)
         if op in ('pmf', 'solvP'):
             fin = np.isfinite(a[0]) & np.isfinite(b[0]); a = [a[0][fin]]; b = [b[0][fin]]
-        ok, why = C06.same_vals(a, b, 1e-7)
+        ok, why = C06.same_vals(a, b, 1e-7, C06.noise_floor(pristine))
         if not ok: out['failures'].append('%s after %s: %s' % (op, case['ops'][:step], why)); break
     print(json.dumps(out))
